@@ -141,6 +141,8 @@ type Machine struct {
 	inValV    types.Object
 	contV     types.Object
 	builders  map[types.Object]string // -> "val" / "key" by declared name
+	byteBufs  map[types.Object]bool   // builders that are []byte locals (filled by append / utf8.AppendRune, read by string(b))
+	keyRegs   map[types.Object]bool   // string locals declared before the loop: may hold the decoded key between its end and the Set
 	states    []string
 	undecided []string
 	undecPos  token.Pos
@@ -211,6 +213,17 @@ func newMachine(c *Ctx, name string) *Machine {
 			m.stateV = v
 		case ts == "strings.Builder":
 			m.builders[v] = v.Name()
+		case isByteSlice(v.Type()) && v.Pos() < m.loop.Pos() && v.Pos() >= m.fn.Body.Pos():
+			m.builders[v] = v.Name()
+			if m.byteBufs == nil {
+				m.byteBufs = map[types.Object]bool{}
+			}
+			m.byteBufs[v] = true
+		case ts == "string" && v.Pos() < m.loop.Pos() && v.Pos() >= m.fn.Body.Pos():
+			if m.keyRegs == nil {
+				m.keyRegs = map[types.Object]bool{}
+			}
+			m.keyRegs[v] = true
 		case ts == "bool" && m.inValV == nil && v.Pos() < m.loop.Pos():
 			m.inValV = v
 		case ts == "rune" || ts == "int32":
@@ -239,10 +252,51 @@ func newMachine(c *Ctx, name string) *Machine {
 							keyB = m.obj(bs.X)
 						}
 					}
+					if len(bc.Args) == 1 { // string(key)
+						if tv, isConv := info.Types[bc.Fun]; isConv && tv.IsType() {
+							if _, isB := m.builders[m.obj(bc.Args[0])]; isB {
+								keyB = m.obj(bc.Args[0])
+							}
+						}
+					}
 				}
 			}
 			return true
 		})
+		if keyB == nil {
+			// the key is kept in a separate register: the value buffer is the one handed to the literal consumer ((string, …) (any, error))
+			var valB types.Object
+			ast.Inspect(m.fn.Body, func(n ast.Node) bool {
+				call, ok := n.(*ast.CallExpr)
+				if !ok || len(call.Args) == 0 {
+					return true
+				}
+				f := c.callee(call)
+				if f == nil || f.Pkg() != c.Types {
+					return true
+				}
+				sig, _ := f.Type().(*types.Signature)
+				if sig == nil || sig.Results().Len() != 2 || !isEmptyIface(sig.Results().At(0).Type()) {
+					return true
+				}
+				ast.Inspect(call.Args[0], func(k ast.Node) bool {
+					if id, ok := k.(*ast.Ident); ok {
+						if _, isB := m.builders[m.obj(id)]; isB {
+							valB = m.obj(id)
+						}
+					}
+					return true
+				})
+				return true
+			})
+			if valB != nil {
+				for b := range m.builders {
+					if b != valB {
+						keyB = b
+					}
+				}
+			}
+		}
 		for b := range m.builders {
 			if b == keyB {
 				m.builders[b] = "key"
